@@ -238,25 +238,39 @@ OpenOK(open, mode, wouldFailAnyway, r) ==
   ELSE (r.err = "") <=> (writers = {} /\ ~wouldFailAnyway)
 ReadonlyRejectOK(r) == r.err = "Readonly"
 
-\* ---- C05 / C06: what a recovered directory may show.
-\* S = last acknowledged abstract state, op = the call in flight (or none), T = the state the completed
-\* run reached (known because images are taken from a completed run), obs = observation after Recover
-CrashRecoverOK(S, op, T, obs) ==
-  /\ obs.viewsAgree                       \* Consume, Get, key/time lookups, Stat, NextOffset consistent
-  /\ obs.next >= S.next
-  /\ obs.idempotent /\ obs.appendable /\ obs.checkAfter = ""
-  /\ CASE op.kind = "publish" ->
-            \E j \in 0..(T.next - S.next) :
-               /\ obs.live = S.live \o SubSeq(T.live, Len(T.live) - (T.next - S.next) + 1,
-                                                     Len(T.live) - (T.next - S.next) + j)
-               /\ obs.next >= S.next + j
-       [] op.kind = "delete" -> obs.live \in {S.live, T.live}
+\* ---- C05 / C06: what a directory shows after a crash / power loss and Open with Recover.
+\* S = abstract state [live, next] acknowledged before the call in flight, op = that call ([kind, batch]; batch = the
+\* messages being published, stamped), T = the state the completed call reached, obs = what the recovered log shows:
+\* [err, live, next, gets, keys, times, statMessages, hash1, hash2, appendErr, appended, checkAfter]
+OneOf(r) == IF r.msgs = <<>> THEN [err |-> r.err] ELSE [err |-> r.err, msg |-> r.msgs[1]]
+ViewsAgree(obs, hasKeys, hasTimes, mono) ==
+  /\ StrictlyIncreasing(obs.live)
+  /\ \A i \in 1..Len(obs.live) : obs.live[i].off < obs.next
+  /\ \A i \in 1..Len(obs.gets) : GetOK(obs.live, obs.next, obs.gets[i].off, OneOf(obs.gets[i]))
+  /\ \A i \in 1..Len(obs.keys) : GetByKeyOK(obs.live, hasKeys, obs.keys[i].key, OneOf(obs.keys[i]))
+  /\ mono => \A i \in 1..Len(obs.times) : GetByTimeOK(obs.live, hasTimes, obs.times[i].t, OneOf(obs.times[i]))
+  /\ obs.statMessages = Len(obs.live)
+RecoveredOK(obs, hasKeys, hasTimes, mono) ==
+  /\ obs.err = ""                                   \* Open with Recover succeeds
+  /\ ViewsAgree(obs, hasKeys, hasTimes, mono)       \* all views agree
+  /\ obs.hash1 = obs.hash2                          \* recovering again changes nothing
+  /\ obs.appendErr = "" /\ obs.checkAfter = ""      \* can be appended to and still passes Check
+  /\ obs.appended = obs.live \o <<[obs.newmsg EXCEPT !.off = obs.next]>>
+CrashRecoverOK(S, op, T, obs, hasKeys, hasTimes, mono) ==
+  /\ RecoveredOK(obs, hasKeys, hasTimes, mono)
+  /\ obs.next >= S.next                             \* NextOffset has not moved backwards
+  /\ obs.next <= (IF T.next > S.next THEN T.next ELSE S.next)
+  /\ CASE op.kind = "publish" ->                    \* everything acknowledged, possibly followed by a prefix of the batch
+            \E j \in 0..Len(op.batch) : obs.live = S.live \o SubSeq(op.batch, 1, j) /\ obs.next >= S.next + j
+       [] op.kind = "delete" -> obs.live = S.live \/ obs.live = T.live     \* all or nothing
        [] OTHER -> obs.live = S.live
-PowerLossOK(written, w, obs) ==           \* written = live sequence at the moment of the power loss
-  /\ obs.viewsAgree
+\* power loss (C06): w = the offset acknowledged durable (Sync / AutoSync Publish / Close) before the call in flight
+PowerLossOK(S, op, T, w, obs, hasKeys, hasTimes, mono) ==
+  /\ RecoveredOK(obs, hasKeys, hasTimes, mono)
   /\ obs.next >= w
-  /\ \A i \in 1..Len(written) : written[i].off < w => written[i] \in Range(obs.live)
-  /\ PrefixOf(obs.live, written)
+  /\ \E base \in {S.live, T.live} :
+        /\ PrefixOf(obs.live, base)                                      \* survivors form a prefix of what was written
+        /\ \A i \in 1..Len(base) : base[i].off < w => base[i] \in Range(obs.live)   \* nothing below w is lost
 
 \* ---- C14: reads of a damaged V2 log. expected = answer of the undamaged log,
 \* touches = offsets whose records the answer is read from, damaged = overwritten/cut offsets
